@@ -85,9 +85,10 @@ for _hb, _ob, _rel, _ty in DSH:
          "schema.list(eq_dict(b_p, b_hb, b_ob, b_rel, b_typed))", timeout=120)
     H[-1] = H[-1][:3] + (H[-1][3].replace("why = eq_pair_problem(a, b, v)", "v = [{'a': 0}, v]\nwhy = eq_pair_problem(a, b, v)"),) + H[-1][4:]
 for _pos in (1, 2, 3):       # the `...: ...` entry first / in the middle / last on one side, anywhere on the other
-    pair("dict.ellipsis.pos%d" % _pos, "a_p: int, a_hb: bool, a_ob: bool, b_p: int, b_hb: bool, b_ob: bool, b_pos: int, pa: bool, va: int, pb: bool, px: bool",
-         "eq_dict_pos(a_p, a_hb, a_ob, %d)" % _pos, "eq_dict_pos(b_p, b_hb, b_ob, b_pos)", pre=["0 <= b_pos <= 3"], timeout=150)
-    H[-1] = H[-1][:3] + (H[-1][3].replace("why = eq_pair_problem(a, b, v)", "v = mkdict(('a', pa, va), ('b', pb, None), ('x', px, v))\nwhy = eq_pair_problem(a, b, v)"),) + H[-1][4:]
+    for _ahb in (False, True):
+        pair("dict.ellipsis.pos%d.%d" % (_pos, _ahb), "a_p: int, a_ob: bool, b_p: int, b_hb: bool, b_ob: bool, b_pos: int, pa: bool, va: int, pb: bool, px: bool",
+             "eq_dict_pos(a_p, %r, a_ob, %d)" % (_ahb, _pos), "eq_dict_pos(b_p, b_hb, b_ob, b_pos)", pre=["0 <= b_pos <= 3"] + ([] if _ahb else ["not a_ob"]), timeout=240)
+        H[-1] = H[-1][:3] + (H[-1][3].replace("why = eq_pair_problem(a, b, v)", "v = mkdict(('a', pa, va), ('b', pb, None), ('x', px, v))\nwhy = eq_pair_problem(a, b, v)"),) + H[-1][4:]
 triple("dict", ", ".join(P(q, DI) for q in ("a_", "b_", "c_")), "eq_dict(a_p, a_hb, a_ob, a_rel, a_typed)",
        "eq_dict(b_p, b_hb, b_ob, b_rel, b_typed)", "eq_dict(c_p, c_hb, c_ob, c_rel, c_typed)", timeout=150)
 LI = ["form: int", "p: int", "hl: bool", "n: int"]
